@@ -21,6 +21,20 @@ C13_MODULES = ["contracts.core_models", "contracts.c09_bounded", "contracts.c13_
 C06_MODULES = C05_MODULES + ["contracts.c13_types", "contracts.c06_names", "contracts.c06_ports", "contracts.c06_stmts"]
 
 PROPERTIES = {
+    "C18": {
+        "modules": ["contracts.core_models", "contracts.c18_proofs"],
+        "level": "other",
+        "explanation": "two layers. PROVED from the real source for symbolic inputs (arity enumerated): the priority selection _first_impl behind choose_first / count_elements_* / count_leading|trailing_*, and the binary decomposition _repeat_filter_by_factor behind std.repeat. BOUNDED (labelled, never counted as proved): every listed helper (count_leading/trailing_*, count_elements_*, count, one_hot, is_one_hot, reverse_bits, rol/ror, l/rshift_fill, repeat/stretch/left/rightpad/pad, concat, apply_mask/Mask, batched/select_batch, minimum/maximum/min|max_element/min|max_index incl. first-extremum rule, clamp, choose_first/select/cond, binary_fold/batched_fold with a non-commutative associative operator, the CRC multi-bit step, the popcount tables and the overflow-free adder of count_set_bits) is executed natively on every input within the stated bound and compared with its mathematical definition. The helpers are higher-order traced code over cohdl values (std.Value, const_cond, as_pyeval): outside the prover's subset, hence bounded.",
+        "assumptions": COMMON_ASSUME + [
+            "count_set_bits / count_clear_bits are covered through their components only (tables, batching, adder, result width): called on a constant they crash the compiler (select_with on a constant selector), so no end-to-end value is observable without a simulator",
+            "emitted logic of the helpers for run-time operands is not executed (no VHDL simulator); it rests on the per-operator contracts of C02/C09",
+        ],
+        "extra": ["contracts.c18_helpers.helpers_sweep"],
+        "canaries": [
+            {"name": "first-wins", "contract": "cohdl.std._core_utility:_first_impl", "case": "3-pairs", "file": "cohdl/std/_core_utility.py",
+             "old": "        return first[1] if first[0] else _first_impl(*rest, default=default)", "new": "        return _first_impl(*rest, default=first[1] if first[0] else default)"},
+        ],
+    },
     "C11": {
         "modules": ["contracts.core_models", "contracts.c11_frames"],
         "level": "proof",
